@@ -143,6 +143,12 @@ func genC19(x *Ctx) *c19Scen {
 			r.AE = []string{"gzip", "", "deflate"}[tp.G(3)]
 		}
 		r.Accept = []string{"", "application/json", "application/xml", "*/*", "text/plain"}[tp.G(5)]
+		if tp.Chance(120) {
+			// q-values with odd but legal spacing; pairs that differ in blanks only. Every value names
+			// application/json cleanly, so the map-ordered fallback of accessorAt is never reached.
+			r.Accept = []string{"application/xml ;q=0.9, application/json;q=0.8", "application/xml;q=0.9,application/json;q=0.8", "application/xml; q=0.9, application/json; q=0.8",
+				"application/json;q=0.5, application/xml", "application/json;q=0.5,application/xml", "application/xml ; q=0.9 , application/json;q=0.8"}[tp.G(6)]
+		}
 		r.Body = r.Method == "POST"
 		if r.Body {
 			r.BodyEnc = []string{"gzip", "", "deflate"}[tp.G(3)]
